@@ -9,7 +9,8 @@ from vf.core import Acc, b2s, s2b
 ID = "C02"
 LEVEL = "exploration"
 RULE = (
-    "streams from the C01 grammar (valid, single-token-mutated, oversize under tiny limits, pipelined) x "
+    "streams from the C01 grammar (valid, single-token-mutated, oversize under tiny limits, pipelined) and streams with "
+    "one long element (chunk extension, chunk size, trailer, header value, target, chunk data of 300..4100 bytes) x "
     "segmentations {byte-wise, every single cut, every pair of cuts (<=64 bytes), structural boundaries +-1 (pairs), "
     "random k-cuts, ALL 2^(n-1) segmentations of short streams / of short chunked bodies behind a one-piece head}; the "
     "observation tuple (application calls with content, final statuses, refusal, closed) must equal the one-piece "
@@ -54,8 +55,26 @@ SHORT_BODIES = [
 ]
 
 
+def long_streams():
+    """streams with one long element (carry-over buffers that grow over many reads)"""
+    from vf.gen import requests as G
+
+    for L in (300, 1030, 1100, 2050, 4100):
+        ext = b";x=" + b"a" * L
+        yield "chunk-ext", L, HEAD_CHUNKED + b"4" + ext + b"\r\ntest\r\n0\r\n\r\n" + G.FOLLOWUP
+        yield "last-chunk-ext", L, HEAD_CHUNKED + b"4\r\ntest\r\n0" + ext + b"\r\n\r\n" + G.FOLLOWUP
+        yield "chunk-size-zeros", L, HEAD_CHUNKED + b"0" * L + b"4\r\ntest\r\n0\r\n\r\n" + G.FOLLOWUP
+        yield "trailer", L, HEAD_CHUNKED + b"4\r\ntest\r\n0\r\nX-T: " + b"v" * L + b"\r\n\r\n" + G.FOLLOWUP
+        yield "trailers", L, HEAD_CHUNKED + b"4\r\ntest\r\n0\r\n" + b"".join(b"T%d: v\r\n" % i for i in range(L // 9)) + b"\r\n" + G.FOLLOWUP
+        yield "header-value", L, b"GET /a HTTP/1.1\r\nHost: h\r\nX-L: " + b"v" * L + b"\r\n\r\n" + G.FOLLOWUP
+        yield "target", L, b"GET /" + b"t" * L + b" HTTP/1.1\r\nHost: h\r\n\r\n" + G.FOLLOWUP
+        yield "chunk-data", L, HEAD_CHUNKED + b"%x\r\n" % L + b"d" * L + b"\r\n0\r\n\r\n" + G.FOLLOWUP
+        yield "cl-body", L, HEAD_CL % L + b"d" * L + G.FOLLOWUP
+
+
 def required_counters(tier):
     return [
+        "long-element-streams",
         "carry:head",
         "carry:control_line",
         "carry:chunk_end",
@@ -105,6 +124,9 @@ def plan(tier, seed):
         parts = min(max(1, total // 8192), 16)
         for p in range(parts):
             specs.append({"mode": "all", "stream": b2s(cl), "lo": head_len, "part": p, "parts": parts})
+    nl = len(list(long_streams()))
+    for i in range(nl):
+        specs.append({"mode": "long", "index": i, "stride": 11 if tier == "quick" else 1})
     return specs
 
 
@@ -278,6 +300,25 @@ def run_shard(spec):
             if len(acc.samples) < 2:
                 acc.sample({"stream": b2s(data)[:200], "config": cfg, "class": sclass,
                             "baseline_statuses": list(R.base[1]), "calls": len(R.base[0])})
+    elif spec["mode"] == "long":
+        name, L, data = list(long_streams())[spec["index"]]
+        n = len(data)
+        for cfg in ({}, {"max_request_header_size": 2000, "max_request_body_size": 2000}):
+            R.baseline(data, cfg)
+            sclass = "long:%s:%d%s" % (name, L, "/tiny" if cfg else "")
+            for k in (1, 64, 100, 512, 1000, 1023, 1024, 1025, 2048, 4096):
+                R.check(data, cfg, tuple(range(k, n, k)), "bytewise" if k == 1 else "random", sclass + "/fixed")
+            near = set()
+            for t in (255, 256, 511, 512, 1023, 1024, 1025, 2047, 2048, 2049, 4095, 4096, 4097):
+                for base in S.structural(data)[:40]:
+                    for d in (-1, 0, 1):
+                        if 0 < base + t + d < n:
+                            near.add(base + t + d)
+            cuts = set(range(1 + spec["index"] % spec["stride"], n, spec["stride"])) | near
+            for c in sorted(cuts):
+                R.check(data, cfg, (c,), "single", sclass)
+        acc.count("long-element-streams")
+        acc.sample({"long_element_stream": name, "element_length": L, "stream_length": n})
     else:
         data = s2b(spec["stream"])
         lo = spec["lo"]
